@@ -8,6 +8,10 @@ def main(tier):
     run = PropertyRun('C20', tier, level='other')
     run.add(I.ReceiveImplTask('C20', 'WaveShareNmea2000Gateway'))
     run.add(DecoderTask('usb', prop='C20'))
+    from pyvc.tasks import SpecTask
+    from contracts.utils_c import Checksum
+    for n in (19, 20):
+        run.add(SpecTask(Checksum(n, prop='C20')))      # "a packet whose checksum does not match is never delivered" rests on this contract
     from props import C20_extra
     C20_extra.add(run, tier)
     return run.execute()
